@@ -13,13 +13,13 @@ import (
 
 // NodeShape describes what a parser site builds.
 type NodeShape struct {
-	NodeType  string   // constant name; "ASTEmpty" when the field is not set
-	ValueType string   // "" = nil payload; "⊤" = unknown dynamic type; else Go type string
-	ValueSet  []string // for tokType payloads: the token constants it can be
-	Arity     int      // -1 = variable
+	NodeType  string       // constant name; "ASTEmpty" when the field is not set
+	ValueType string       // "" = nil payload; "⊤" = unknown dynamic type; else Go type string
+	ValueSet  []string     // for tokType payloads: the token constants it can be
+	Arity     int          // -1 = variable
 	Elems     []*NodeShape // per child (exact arity) or the set of element shapes (variable)
-	ElemAny   bool     // some child is "any parsed expression"
-	Zero      bool     // the zero ASTNode{}
+	ElemAny   bool         // some child is "any parsed expression"
+	Zero      bool         // the zero ASTNode{}
 	Pos       token.Pos
 	Fn        *ssa.Function
 	Clause    string
